@@ -790,7 +790,11 @@ def value_close(lib: Any, model: Val) -> tuple[bool | None, str]:
     if not diff.is_number or diff is S.NaN:
         return None, f"difference not numeric: {diff}"
     scale = max(model.mag, absf(mv))
-    d = mpmath.mpf(str(diff))
+    try:
+        d = mpmath.mpf(str(diff))
+    except (ValueError, TypeError):
+        # |lib - model| did not come out as a real number (a complex residue of a power of a negative float): not judged
+        return None, f"difference not a real number: {diff}"
     if inexact:
         av = absf(mv)
         if scale > 0 and av < scale * mpmath.mpf("1e-6") and d > 0:
